@@ -46,8 +46,29 @@ def _expected_vars(case):
     return vs
 
 
-def _call(case):
+_cleanup_registered = set()
+
+
+def fresh_qubovert():
+    """import_qubovert(fresh_c=True) (cached per process), and make sure the private build directory is removed
+    when this process ends - clause processes are forked pool workers, in which plain atexit handlers do not run."""
     q = import_qubovert(fresh_c=True)
+    register_build_cleanup(build_canneal())
+    return q
+
+
+def register_build_cleanup(so):
+    import multiprocessing.util as mpu
+    import os
+    import shutil
+    d = os.path.dirname(so)
+    if d not in _cleanup_registered and os.path.basename(d).startswith("canneal_"):
+        _cleanup_registered.add(d)
+        mpu.Finalize(None, shutil.rmtree, args=(d, True), exitpriority=0)
+
+
+def _call(case):
+    q = fresh_qubovert()
     fn = getattr(q.sim, "anneal_" + case["fn"])
     return fn(_build(case), **case["kw"])
 
@@ -56,7 +77,7 @@ def _call(case):
 # the individual aspects of well-formedness
 # ---------------------------------------------------------------------------------------------
 def _aspect_count(case, res):
-    q = import_qubovert(fresh_c=True)
+    q = fresh_qubovert()
     n = max(case["kw"].get("num_anneals", 1), 0)
     if not isinstance(res, q.sim.AnnealResults):
         return Fail("result is %s, not AnnealResults" % type(res).__name__, key="type")
@@ -133,6 +154,7 @@ def preflight():
     case is reported as a violation with key crash:... instead of taking the checker down.  -> Fail or None"""
     global _preflight_result
     if _preflight_result is None:
+        fresh_qubovert()
         so = build_canneal()
         calls = []
         for fn in FNS:
